@@ -342,6 +342,22 @@ func TestCheck(t *testing.T) {
 					w.Eval(nontrivial(n, def))
 				}
 			})
+			// numbers whose numeral under this DefaultFormat is exactly as long as the limit, one shorter, one longer
+			var atLimit []uint64
+			for n := uint64(112000); n <= 129100 && len(atLimit) < 60; n += 7 {
+				if l := len(ref.RomanNumeral(n, refFlags(def))); l >= 127 && l <= 129 {
+					atLimit = append(atLimit, n)
+				}
+			}
+			atLimit = append(atLimit, 128000, 127000, 129000)
+			r.Serial(func(w *vkit.W) {
+				for _, n := range atLimit {
+					for _, path := range []string{"methods", "formatter"} {
+						judge(Case{N: n, Flags: def, Default: def, Limit: 128, Path: path}, w)
+						w.Eval(true)
+					}
+				}
+			})
 			restore()
 		}
 	})
